@@ -27,6 +27,8 @@ class C12(Prop):
     # translator tie: BehaviorSubject over Subject / SubjectThreads (compiler-expanded source, translated) is the
     # BState of the model: store first, then broadcast; greeting = the stored value; peek reads the cell
     tie_modules = {
+        # subject.rs / behavior_subject.rs / start.rs pinned wholesale on top of their semantic ties
+        "RxModel.GenTie.PinsSubject": [],
         # critical sections read off the source (rs2lean/src/holds.rs): which calls are made while which shared cell is held — the policies (P1: BehaviorSubject::next makes no call under its value cell)
         "RxModel.GenTie.Holds": [],
         "RxModel.GenTie.Behavior": [],
